@@ -100,3 +100,88 @@ def check(ctx, rule="R5.spec", key_prefix="logical-type"):
                "%s is written as LogicalType union field %s" % (name, sorted(want, key=str)[0]),
                wt[name] == want, "writer emits field %s" % sorted(wt[name], key=str))
     return n
+
+
+def _param_offsets(P):
+    """{(member, field): byte offset in carquet_logical_type} for the parameter structs of the union."""
+    import re
+    rec = P.records["carquet_logical_type"]
+    pf = [f for f in rec["fields"] if f["n"] == "params"][0]
+
+    def anon(t):
+        m = re.search(r"\((?:unnamed|anonymous)[^)]*? at (.+?):(\d+):\d+\)", t or "")
+        for _u, r in P.records_all:
+            if m and r.get("file") == m.group(1) and r.get("line") == int(m.group(2)):
+                return r
+        return None
+    un = anon(pf["t"])
+    out = {}
+    for mem in (un["fields"] if un else []):
+        st = anon(mem["t"])
+        for f in (st["fields"] if st else []):
+            out[(mem["n"], f["n"])] = pf["off"] // 8 + mem["off"] // 8 + f["off"] // 8
+    return out
+
+
+def params_roundtrip(ctx, rule="R5.roundtrip", key_prefix="logical-params"):
+    """write_logical_type then parse_logical_type for every parameterised member and every parameter combination of a
+    small grid: the id and the parameters that went in come back (encoder and decoder primitives hooked; the
+    decoder replays exactly what the writer emitted). Returns (scenarios, all decided and intact)."""
+    from . import thriftrt
+    P = ctx.P
+    ids = P.enum("carquet_logical_type_id")
+    lo = sem.field_offsets(P, "carquet_logical_type")
+    po = _param_offsets(P)
+    units = sorted(P.enum("carquet_time_unit").values()) if "carquet_time_unit" in P.enums else [0, 1, 2]
+    grid = []
+    for nm, mem in (("TIME", "time"), ("TIMESTAMP", "timestamp")):
+        if ("CARQUET_LOGICAL_" + nm) in ids and (mem, "unit") in po:
+            for utc in (0, 1):
+                for u in units:
+                    grid.append((nm, {(mem, "is_adjusted_to_utc"): utc, (mem, "unit"): u}))
+    if "CARQUET_LOGICAL_DECIMAL" in ids and ("decimal", "precision") in po:
+        for pr, sc in ((9, 2), (38, 0), (5, 5)):
+            grid.append(("DECIMAL", {("decimal", "precision"): pr, ("decimal", "scale"): sc}))
+    if "CARQUET_LOGICAL_INTEGER" in ids and ("integer", "bit_width") in po:
+        for bw in (8, 16, 32, 64):
+            for sg in (0, 1):
+                grid.append(("INTEGER", {("integer", "bit_width"): bw, ("integer", "is_signed"): sg}))
+    n = 0
+    allok = True
+    wf = P.fn("write_logical_type", PT)
+    for nm, params in grid:
+        key = "%s|%s:write_logical_type|%s|%s" % (key_prefix, PT, nm, ",".join("%s=%s" % (k[1], v) for k, v in sorted(params.items())))
+        what = "LogicalType %s with %s written by write_logical_type comes back from parse_logical_type with the same id and parameters" % (
+            nm, ", ".join("%s=%s" % (k[1], v) for k, v in sorted(params.items())))
+        heap0 = {("obj", o): 0 for o in range(0, P.records["carquet_logical_type"]["size"], 4)}
+        heap0[("obj", lo["id"])] = ids["CARQUET_LOGICAL_" + nm]
+        for k, v in params.items():
+            heap0[("obj", po[k])] = v
+        try:
+            ret, ev = thriftrt.writer_events(P, "write_logical_type", heap0, "obj", args=[Ptr("enc", 0, 1), Ptr("obj", 0, 1)])
+            tree = thriftrt.build_tree(ev)
+            ret2, ev2, heap, copies, rp = thriftrt.parse_with_replay(P, "parse_logical_type", tree, lambda: [Ptr("dec", 0, 1), Ptr("out", 0, 1)], "out")
+        except (sem.Inconclusive, ValueError, KeyError, AssertionError, IndexError) as ex:
+            ctx.inconclusive(rule, key, P.where(wf.body), what, "%s: %s" % (type(ex).__name__, ex))
+            allok = False
+            continue
+        n += 1
+        got_id = heap.get(("out", lo["id"]))
+        diffs = []
+        if got_id != ids["CARQUET_LOGICAL_" + nm]:
+            diffs.append("id %s (wrote %s)" % (got_id, ids["CARQUET_LOGICAL_" + nm]))
+        for k, v in sorted(params.items()):
+            g = heap.get(("out", po[k]))
+            if isinstance(g, int) and isinstance(v, int):
+                # a bool / int8 member is compared as stored
+                if (g & 0xFF) != (v & 0xFF) if k[1] in ("is_adjusted_to_utc", "is_signed", "bit_width") else g != v:
+                    diffs.append("%s.%s reads back %s" % (k[0], k[1], g))
+            else:
+                diffs.append("%s.%s reads back %r" % (k[0], k[1], g))
+        desync = [e for e in ev2 if e and e[0] in ("desync", "unread-fields")]
+        if desync:
+            diffs.append("parser out of step with the writer: %s" % (desync[:2],))
+        if diffs:
+            allok = False
+        ctx.ob(rule, key, P.where(wf.body), what, not diffs, "; ".join(diffs))
+    return n, allok
